@@ -31,7 +31,7 @@ func focusWeights(focus string) weights {
 	case "C13":
 		w["export"] = 6
 	case "C14":
-		w["crash"] = 6
+		w["crash"], w["gov"], w["pump"] = 6, 6, 10
 	}
 	return w
 }
@@ -41,7 +41,7 @@ func (Scenario) Generate(rng *rand.Rand, focus, tier string) kernel.Plan {
 	cfg := map[string]int64{
 		"keyseed":     rng.Int63(),
 		"chains":      2 + kernel.B2I(kernel.Chance(rng, 0.3)),
-		"relayers":    1 + rng.Int63n(3),
+		"relayers":    1 + rng.Int63n(3) + kernel.B2I(focus == "C14" && kernel.Chance(rng, 0.5)),
 		"users":       2 + rng.Int63n(2),
 		"vals":        rng.Int63n(3),
 		"rev_off":     rng.Int63n(5),
@@ -79,6 +79,26 @@ func (Scenario) Generate(rng *rand.Rand, focus, tier string) kernel.Plan {
 			return -1 - rng.Int63n(3)
 		}
 		return rng.Int63n(3)
+	}
+	if nr >= 2 && (focus == "C14" && kernel.Chance(rng, 0.5) || kernel.Chance(rng, 0.08)) {
+		// prelude: on every chain one relayer additionally declares another relayer's remote address, and
+		// the proposals get time to pass, so that later acknowledgements have an ambiguous fee recipient
+		a, b := rng.Int63n(nr), rng.Int63n(nr)
+		for c := int64(0); c < nc; c++ {
+			add("gov", c, 0, a, nc+1, 1+3*b)
+		}
+		for k := 0; k < 3; k++ {
+			for c := int64(0); c < nc; c++ {
+				add("block", c, 1, rng.Int63(), 0)
+			}
+			add("advance", 12)
+		}
+		for k := 0; k < 3; k++ {
+			add("send", rng.Int63n(nc), rng.Int63n(4), rng.Int63n(3), rng.Int63n(16), rng.Int63n(5), rng.Int63n(7), 1+rng.Int63n(3), rng.Int63n(6))
+		}
+		for k := 0; k < 4; k++ {
+			add("pump", b)
+		}
 	}
 	for i := 0; i < n; i++ {
 		x := rng.Intn(total)
@@ -134,7 +154,11 @@ func (Scenario) Generate(rng *rand.Rand, focus, tier string) kernel.Plan {
 		case "advmsg":
 			add("advmsg", rng.Int63n(16))
 		case "gov":
-			add("gov", rng.Int63n(nc), rng.Int63n(4), rng.Int63n(4), rng.Int63n(4))
+			alias := rng.Int63n(9)
+			if (focus == "C14" || focus == "C06") && kernel.Chance(rng, 0.5) {
+				alias = 1 + 3*rng.Int63n(3)
+			}
+			add("gov", rng.Int63n(nc), rng.Int63n(4), rng.Int63n(4), rng.Int63n(4), alias)
 		case "export":
 			add("export", rng.Int63n(nc))
 		}
